@@ -846,11 +846,18 @@ func (e *jsonEnv) docCasesFor(rng *PRNG, s *JS, n int) []docCase {
 		d := e.genDoc(rng, s, 0)
 		bs, _ := json.Marshal(d)
 		out = append(out, docCase{"valid", string(bs)})
+		base := e.resolve(s)
+		if base.Kind == "oneOf" && base.Disc == "" && i == 0 {
+			// documents that are well-formed JSON but (most likely) nobody's: the probing decoder has
+			// to come back with an error (or with whichever alternative the model says accepts them)
+			for _, foreign := range []string{`true`, `[1,2,3]`, `"text"`, `{"zz-nobody":1}`, `7`, `{}`} {
+				out = append(out, docCase{"foreign", foreign})
+			}
+		}
 		m, ok := d.(map[string]any)
 		if !ok {
 			continue
 		}
-		base := e.resolve(s)
 		if base.Kind == "oneOf" && base.Disc != "" {
 			// the discriminator property itself: absent, null, and every wrong JSON kind
 			for _, bad := range []struct {
